@@ -131,7 +131,10 @@ theorem C06_calls (evs : List Event) (now : Ms) (recs : List Rec) :
       cases hrm : removeAll (Cache.ops lower)
           (addAll (Cache.ops lower) (addAll (Cache.ops lower) (ingestPre lower (Cache.ops lower) C now recs).cache
             (ingestPre lower (Cache.ops lower) C now recs).addrAdds).1 (ingestPre lower (Cache.ops lower) C now recs).otherAdds).1
-          (ingestPre lower (Cache.ops lower) C now recs).removes with
+          (Zc.keptRemoves (Cache.ops lower)
+            (addAll (Cache.ops lower) (addAll (Cache.ops lower) (ingestPre lower (Cache.ops lower) C now recs).cache
+              (ingestPre lower (Cache.ops lower) C now recs).addrAdds).1 (ingestPre lower (Cache.ops lower) C now recs).otherAdds).1
+            (ingestPre lower (Cache.ops lower) C now recs).removes) with
       | error e => rw [hrm] at hc; cases hc
       | ok c4 =>
         rw [hrm] at hc
@@ -148,7 +151,10 @@ theorem C06_calls (evs : List Event) (now : Ms) (recs : List Rec) :
         cases hrm : removeAll (Cache.ops lower)
             (addAll (Cache.ops lower) (addAll (Cache.ops lower) (ingestPre lower (Cache.ops lower) C now recs).cache
               (ingestPre lower (Cache.ops lower) C now recs).addrAdds).1 (ingestPre lower (Cache.ops lower) C now recs).otherAdds).1
-            (ingestPre lower (Cache.ops lower) C now recs).removes with
+            (Zc.keptRemoves (Cache.ops lower)
+              (addAll (Cache.ops lower) (addAll (Cache.ops lower) (ingestPre lower (Cache.ops lower) C now recs).cache
+                (ingestPre lower (Cache.ops lower) C now recs).addrAdds).1 (ingestPre lower (Cache.ops lower) C now recs).otherAdds).1
+              (ingestPre lower (Cache.ops lower) C now recs).removes) with
         | error e => rw [hrm] at hc; cases hc
         | ok c4 =>
           rw [hrm] at hc
@@ -196,7 +202,10 @@ theorem C06_calls (evs : List Event) (now : Ms) (recs : List Rec) :
           cases hrm : removeAll (Flat.ops lower)
               (addAll (Flat.ops lower) (addAll (Flat.ops lower) (ingestPre lower (Flat.ops lower) S now recs).cache
                 (ingestPre lower (Flat.ops lower) S now recs).addrAdds).1 (ingestPre lower (Flat.ops lower) S now recs).otherAdds).1
-              (ingestPre lower (Flat.ops lower) S now recs).removes with
+              (Zc.keptRemoves (Flat.ops lower)
+                (addAll (Flat.ops lower) (addAll (Flat.ops lower) (ingestPre lower (Flat.ops lower) S now recs).cache
+                  (ingestPre lower (Flat.ops lower) S now recs).addrAdds).1 (ingestPre lower (Flat.ops lower) S now recs).otherAdds).1
+                (ingestPre lower (Flat.ops lower) S now recs).removes) with
           | error e => rw [hrm] at ho; cases ho
           | ok c4 =>
             rw [hrm] at ho
